@@ -393,13 +393,15 @@ theorem applyTRS_spec {m m' : MeshVal (List s)} {t : trs.TRS s} (hm : m.applyTRS
     Changed posKey (List.map (liftV3 fun v => t.Transform v)) m m' := modifyAttr_spec hm
 
 /-- `CenterFloat3Attribute`: `v ↦ v - centre(box of the array)` -/
-theorem center_spec {m m' : MeshVal (List s)} {n : String} (hm : m.center n = some m') :
-    Changed ⟨3, n⟩ (fun d => d.map (liftV3 fun v => v.Sub (centerOf (d.filterMap v3?)))) m m' := modifyAttr_spec hm
+theorem center_spec {m m' : MeshVal (List s)} {mn mx : s → s → s} {n : String}
+    (hm : MeshVal.center mn mx m n = some m') :
+    Changed ⟨3, n⟩ (fun d => d.map (liftV3 fun v => v.Sub (centerOf mn mx (d.filterMap v3?)))) m m' := modifyAttr_spec hm
 
 /-- `NormalizeAttribute3D`: `v ↦ v / (longest length in the array)` -/
-theorem normalize_spec {m m' : MeshVal (List s)} {init : s} {n : String} (hm : MeshVal.normalize init m n = some m') :
+theorem normalize_spec {m m' : MeshVal (List s)} {init : s} {mx : s → s → s} {n : String}
+    (hm : MeshVal.normalize init mx m n = some m') :
     Changed ⟨3, n⟩ (fun d => d.map (liftV3 fun v =>
-      v.DivByConstant ((d.filterMap v3?).foldl (fun acc v => max acc v.Length) init))) m m' := modifyAttr_spec hm
+      v.DivByConstant ((d.filterMap v3?).foldl (fun acc v => mx acc v.Length) init))) m m' := modifyAttr_spec hm
 
 /-- `LaplacianSmooth`: only the smoothed attribute changes (by the in-place sequential sweep `lapIter`) -/
 theorem laplacian_frame {m m' : MeshVal (List s)} {n : String} {iters : Nat} {factor : s}
